@@ -11,6 +11,7 @@ extern const prog_t *const pt_sets[];
 extern const unsigned *const pt_set_lens[];
 extern const unsigned pt_nsets;
 
+int pt_last_res;
 static int effects[4096], neffects;
 void emit(int id)
 {
